@@ -12,7 +12,8 @@
 (***************************************************************************)
 EXTENDS Naturals, Sequences, FiniteSets, TLC
 
-CONSTANTS NPlugins
+CONSTANTS NPlugins,
+          NoCode      \* TRUE: the application passes no attributes of its own (Deep.start: built-in, environment, plugins)
 
 Keys == {"svc", "k1", "k2"}                \* service.name and two ordinary keys
 Schemas == {"", "s1", "s2"}
@@ -38,6 +39,7 @@ Provide(ks, sc, bl) ==
     /\ pc = 0 /\ Len(srcs) < NSrc
     /\ (Len(srcs) = 0 => sc = "")
     /\ (bl => ("svc" \in ks /\ Len(srcs) < 2))     \* only the environment or the code can supply an empty name here
+    /\ ((NoCode /\ Len(srcs) = 1) => (ks = {} /\ sc = "" /\ ~bl))
     /\ srcs' = Append(srcs, [keys |-> ks, schema |-> sc, blank |-> bl])
     /\ UNCHANGED <<pc, acc, blankSvc, fellBack, kept>>
 
